@@ -352,7 +352,7 @@ public:
     auto frame = WebSocketFrame::makeText(text);
     generateMaskKey(frame.maskKey);
     auto wire = frame.serialize(true); // client MUST mask
-    sendRawBytes(wire.data(), wire.size());
+    sendUnlessCloseSent(wire);
   }
 
   void sendBinary(const std::vector<std::uint8_t>& data)
@@ -361,7 +361,7 @@ public:
     auto frame = WebSocketFrame::makeBinary(data);
     generateMaskKey(frame.maskKey);
     auto wire = frame.serialize(true);
-    sendRawBytes(wire.data(), wire.size());
+    sendUnlessCloseSent(wire);
   }
 
   void sendPing(const std::vector<std::uint8_t>& payload = {})
@@ -382,6 +382,12 @@ public:
     auto frame = WebSocketFrame::makeClose(code, reason);
     generateMaskKey(frame.maskKey);
     auto wire = frame.serialize(true);
+    // Flip _closeSent and enqueue the CLOSE frame in ONE _sendMutex critical
+    // section, so a concurrent sendText/sendBinary either enqueued its frame
+    // before this CLOSE or sees _closeSent and drops it (RFC 6455 §5.5.1: no data
+    // frame after a Close frame) — same discipline as WebSocketServer::_wsMutex.
+    std::lock_guard<std::mutex> lock(_sendMutex);
+    _closeSent = true;
     sendRawBytes(wire.data(), wire.size());
   }
 
@@ -554,6 +560,10 @@ private:
     }
     _upgradeComplete.store(false);
     _closeEchoed.store(false); // re-arm the one-shot CLOSE echo for this connection
+    {
+      std::lock_guard<std::mutex> lock(_sendMutex);
+      _closeSent = false; // a fresh connection may send data again
+    }
 
     // Register the global callbacks on the LOCAL transport. Each weak-captures
     // the client (NEVER an owning shared_ptr<Transport> of its own _transport —
@@ -1153,6 +1163,19 @@ private:
     }
   }
 
+  /// \brief Send a DATA frame unless this connection's CLOSE frame has already
+  /// been sent. The recheck and the enqueue are atomic under _sendMutex w.r.t.
+  /// sendClose() (user-initiated or the inbound-CLOSE echo).
+  void sendUnlessCloseSent(const std::vector<std::uint8_t>& wire)
+  {
+    std::lock_guard<std::mutex> lock(_sendMutex);
+    if (_closeSent)
+    {
+      return; // drop: a data frame must never follow our CLOSE frame
+    }
+    sendRawBytes(wire.data(), wire.size());
+  }
+
   void generateMaskKey(std::uint8_t key[4])
   {
     crypto::SecureRng::fill(key, 4);
@@ -1232,6 +1255,13 @@ private:
   // CLOSE is echoed, re-armed in doConnect() per connection. Replaces the dead
   // _state==CLOSING guard (CLOSING is never stored — it is a reserved state).
   std::atomic<bool> _closeEchoed{false};
+  // Data-after-close guard: _closeSent is set (under _sendMutex, together with the
+  // CLOSE enqueue) by sendClose(); sendText/sendBinary recheck it under the same
+  // mutex. _sendMutex is taken BEFORE the leaf _transportMutex (inside
+  // sendRawBytes) and is never held while any other lock is acquired by the
+  // holder; sendAsync() only enqueues, so holding it across the call cannot block.
+  std::mutex _sendMutex;
+  bool _closeSent = false;
 
   // Fragment reassembly (protected by _dataMutex)
   std::vector<std::uint8_t> _fragmentBuffer;
